@@ -157,7 +157,7 @@ def gen_cases(tier: str, seed: int) -> List[Dict]:
 
     pshapes = [(), (2,), (2, 2), (1, 2), (2, 1, 2)] if quick else [(), (1,), (2,), (3,), (2, 2), (1, 2), (2, 1), (2, 1, 2), (1, 2, 2)]
     ashapes = [(), (2,), (3,), (1, 2), (2, 1), (2, 1, 3)]
-    reps = 10 if quick else 120
+    reps = 10 if quick else 700
     for _ in range(reps):
         for psh in pshapes:
             names = rng.choice([("q0",), ("q0", "q1"), ("q0", "q2"), ("q2", "q10"), ("q0", "q1", "q2")])
